@@ -41,14 +41,18 @@ MANIFEST = {
             "step; science.topological_sort and science.graph_has_cycle (nested recursive closure over set / list containers, early "
             "returns out of loops) are translated statement by statement into a second small language and proved, for every graph and "
             "every unfolding depth, to return exactly the model's topoSort / hasCycle (so the graph theorems are about the code as "
-            "translated on this run); literal defaults; blunt text flags only for setup_reward_sharing, __init__ / "
+            "translated on this run); the three step methods (PrimaiteGame.step, PrimaiteGymEnv.step, PrimaiteRayMARLEnv.step) are "
+            "extracted as sequences of calls and proved to tick once, to run update_agents once on a snapshot taken after the tick and "
+            "to return current_reward read after update_agents; literal defaults; blunt text flags only for setup_reward_sharing, __init__ / "
             "register_component and the two one-line agent methods. Differential rig R-rew "
             "through the real PrimaiteGame.from_config (every sharing graph on <= 4 agents; several shares per agent; cycles of every "
             "length incl. self-sharing), the real science.py functions on EVERY graph with <= 4 nodes incl. self-loops and repeated "
             "neighbours (thorough: every loop-free graph on 5 nodes), real update_agents on synthetic state dictionaries (also leaves "
             "of the wrong shape: the exception kinds are compared), resets, agents without reward function, the real "
             "access_from_nested_dict on synthetic values and on whole real describe_state() dictionaries, and real PrimaiteGymEnv / "
-            "PrimaiteGame runs with resets on the shipped and on generated scenarios. Python oracles on the implementation alone: "
+            "PrimaiteGame runs with resets on the shipped and on generated scenarios, and the real reset / step of PrimaiteRayMARLEnv on the "
+            "shipped two-defender scenarios (imported over a stub of rllib's MultiAgentEnv base class, rllib itself is not importable "
+            "here): the rewards dictionary of every step is compared with the agents' current rewards. Python oracles on the implementation alone: "
             "declared sharing graph, cycle <=> rejected, same-step shared values, weighted sum, totals per episode, and a "
             "non-interference recheck (each calculate re-run on a copy with the state cut down to its own leaf and the item fields "
             "outside its proved read-set scrambled), and a LIVE-OBJECT oracle: after every real step each component's value is "
@@ -557,10 +561,17 @@ def _families(ctx: Ctx) -> List[Tuple[str, dict]]:
     for stem in (shipped if ctx.thorough else shipped[:3] + rng.shuffle(shipped[3:])[:4]):
         for mode in (("asis", "dyadic") if ctx.thorough or stem == "uc7_config" else (rng.choice(["asis", "dyadic"]),)):
             cases.append(("env-shipped", rig.gen_env_case(rng, ctx.scale(24, 96), "shipped:" + stem, mode)))
+    # PrimaiteGame.step() itself (the third step pipeline; the environments do not call it): UC2 driven through the game loop, the RL
+    # agent given a random action of its map before every step
+    for k in range(ctx.scale(2, 12)):
+        c = rig.gen_env_case(rng, ctx.scale(40, 128), "uc2", rng.choice(["asis", "dyadic"]))
+        c["game_loop"] = True
+        c.pop("reset_at", None)
+        cases.append(("env-gameloop", c))
     # the multi-agent environment (PrimaiteRayMARLEnv has its own step pipeline and returns a dictionary of rewards): the two shipped
     # two-defender scenarios, with resets
     for stem in ("data_manipulation_marl", "multi_agent_session"):
-        if stem in rig.ENV_SHIPPED or ctx.thorough or True:
+        if stem in rig.ENV_SHIPPED:
             c = rig.gen_env_case(rng, ctx.scale(16, 64), "shipped:" + stem, rng.choice(["asis", "dyadic"]))
             c["marl"] = True
             c["reset_at"] = sorted({5, ctx.scale(11, 40)})
